@@ -46,6 +46,11 @@ func e1Specs(prop, tier string) []engines.E1Spec {
 				{Name: "N-names/none/rs20", Cfg: cfgNone, Alphabet: engines.NameAlphabet(), Depth: 3, Oracles: or},
 			}
 		}
+		kd := 4
+		if tier != "quick" {
+			kd = 5
+		}
+		specs = append(specs, engines.E1Spec{Name: "K-kind-reuse/none/rs20", Cfg: cfgNone, Alphabet: engines.KindReuseAlphabet(), Depth: kd, Oracles: or})
 		if prop == "C02" {
 			d := 2
 			if tier != "quick" {
@@ -106,12 +111,14 @@ func e1Specs(prop, tier string) []engines.E1Spec {
 			return []engines.E1Spec{
 				{Name: "A-small/none/rs20", Cfg: cfgNone, Alphabet: engines.SmallA(), Depth: 3, Oracles: or, AllJ: true},
 				{Name: "B/none/rs3", Cfg: rig.Config{RecordSize: 3}, Alphabet: engines.AlphabetB(false), Depth: 2, Oracles: or, Level: "archive", AllJ: true},
+				{Name: "K-kind-reuse/none/rs20", Cfg: cfgNone, Alphabet: engines.KindReuseAlphabet(), Depth: 4, Oracles: or, AllJ: true},
 			}
 		}
 		return []engines.E1Spec{
 			{Name: "A-full/none/rs20", Cfg: cfgNone, Alphabet: engines.FullA(), Depth: 3, Oracles: or, AllJ: true},
 			{Name: "A-small/none/rs1", Cfg: rig.Config{RecordSize: 1}, Alphabet: engines.SmallA(), Depth: 4, Oracles: or, AllJ: true},
 			{Name: "B-full/none/rs3", Cfg: rig.Config{RecordSize: 3}, Alphabet: engines.AlphabetB(true), Depth: 3, Oracles: or, Level: "archive", AllJ: true},
+			{Name: "K-kind-reuse/none/rs20", Cfg: cfgNone, Alphabet: engines.KindReuseAlphabet(), Depth: 5, Oracles: or, AllJ: true},
 		}
 	case "C14":
 		type init struct {
